@@ -122,6 +122,54 @@ def dependent_prior_case(col, rng):
     col.add(None if draws == want else {"sig": "native::gibbs::finite_discrete_dependent_prior", "what": f"draws {draws} differ from outcomes[categorical(key, joint log-densities)] = {want}", "input": inp})
 
 
+def wrapper_case(col, rng):
+    """through GibbsKernel.transition (not just the inner transition function): the value stored in the returned state is the draw itself,
+    also when the variable's CURRENT value has another dtype (an integer start value for tau2 / a discrete variable with fractional outcomes)"""
+    n, p = 12, 4
+    b = DistRegBuilder()
+    b.add_response(rng.normal(size=n).astype(np.float32), tfd.Normal)
+    b.add_predictor("loc", tfb.Identity)
+    b.add_predictor("scale", tfb.Exp)
+    b.add_np_smooth(rng.normal(size=(n, p)).astype(np.float32), np.eye(p, dtype=np.float32), a=2.0, b=1.5, predictor="loc", name="f")
+    model = b.build_model()
+    kernel = tau2_gibbs_kernel(model.groups()["f"])
+    model.vars["f_tau2"].value = 1  # integer start value
+    iface = gs.LieselInterface(model)
+    kernel.set_model(iface)
+    kernel.identifier = "g"
+    from liesel.goose.epoch import EpochConfig, EpochType
+    ep = EpochConfig(EpochType.POSTERIOR, 5, 1, None).to_state(1, 0)
+    bad = None
+    for i in range(4):
+        key = jax.random.PRNGKey(int(rng.integers(0, 2**31)))
+        state = model.state
+        want = float(kernel._transition_fn(key, state)["f_tau2"])
+        out = kernel.transition(key, {}, state, ep)
+        got = float(np.asarray(out.model_state["f_tau2_value"].value))
+        if not np.isclose(got, want, rtol=1e-6):
+            bad = f"GibbsKernel.transition stored tau2 = {got}, the full-conditional draw for this key is {want}"
+            break
+    col.add(None if bad is None else {"sig": "native::gibbs::wrapper_changes_draw", "what": bad, "input": {"start_value_of_tau2": "integer 1"}})
+    # discrete variable with fractional outcomes and an integer start value
+    grid = lsl.Var([0.0, 0.5, 1.0, 1.5], name="grid")
+    k_ = lsl.Var(1, lsl.Dist(tfd.FiniteDiscrete, outcomes=grid, probs=[0.1, 0.4, 0.3, 0.2]), name="k")
+    y = lsl.obs(np.float32(0.4), lsl.Dist(tfd.Normal, loc=k_, scale=1.0), name="y")
+    m2 = lsl.GraphBuilder().add(y).build_model()
+    kd = finite_discrete_gibbs_kernel("k", m2)
+    if2 = gs.LieselInterface(m2)
+    kd.set_model(if2)
+    kd.identifier = "d"
+    bad = None
+    for i in range(6):
+        key = jax.random.PRNGKey(int(rng.integers(0, 2**31)))
+        want = float(kd._transition_fn(key, m2.state)["k"])
+        got = float(np.asarray(kd.transition(key, {}, m2.state, ep).model_state["k_value"].value))
+        if got != want:
+            bad = f"GibbsKernel.transition stored k = {got}, the draw for this key is {want}"
+            break
+    col.add(None if bad is None else {"sig": "native::gibbs::wrapper_changes_draw", "what": bad, "input": {"start_value_of_k": "integer 1", "outcomes": [0.0, 0.5, 1.0, 1.5]}})
+
+
 def bernoulli_case(col, rng, explicit):
     """Bernoulli variable (outcomes derived from the distribution, or given explicitly in a non-sorted order)"""
     z = lsl.Var(np.int32(1), lsl.Dist(tfd.Bernoulli, probs=0.3), name="z")
@@ -171,6 +219,11 @@ def bounded(tier, seed):
             col.add({"sig": f"native::gibbs::exception::{type(e).__name__}", "what": str(e)[:200], "input": {"kernel": "finite_discrete"}})
         n += 1
         try:
+            wrapper_case(col, rng)
+        except Exception as e:
+            col.add({"sig": f"native::gibbs::exception::{type(e).__name__}", "what": str(e)[:200], "input": {"scenario": "GibbsKernel.transition with integer start values"}})
+        n += 2
+        try:
             dependent_prior_case(col, rng)
         except Exception as e:
             col.add({"sig": f"native::gibbs::exception::{type(e).__name__}", "what": str(e)[:200], "input": {"kernel": "finite_discrete", "dependent_prior": True}})
@@ -185,5 +238,5 @@ def bounded(tier, seed):
             "rule": (f"BOUNDED: DistRegBuilder models with a full-rank and a rank-deficient (second-difference) penalty, hyperparameters a, b left as built or changed AFTER the kernel was created, plus a penalty scaled by 1e-7 and a full-rank penalty with one eigenvalue of 1e-8 (rank by matrix_rank vs. eigenvalue thresholds): "
                      "the kernel's draw for a fixed key equals b*/gamma(key, a*) with a* = a + rank/2, b* = b + beta'K beta/2 from the state, and model log-density minus log IG(a*, b*) is constant "
                      "over a tau2 grid; finite-discrete kernel on k ~ FiniteDiscrete with a downstream Normal likelihood: draw = outcomes[categorical(key, joint log-densities)], eager and jit; a model in which the discrete variable parameterises the prior of a parameter and the distribution of an unflagged variable (logits captured at jax.random.categorical and compared with the joint log-density up to a constant); the same for a Bernoulli variable with derived and with explicitly given (unsorted) outcomes. "
-                     f"The sampling distributions themselves are not tested (sampler primitives trusted). seed={seed}, {reps} repetition(s)."),
+                     f"Both kernels also through GibbsKernel.transition with integer start values (stored value = draw). The sampling distributions themselves are not tested (sampler primitives trusted). seed={seed}, {reps} repetition(s)."),
             "samples": [{"hyperparameters_changed_after_kernel_creation": True, "rank_deficient": True}], "exhaustive": False, "violations": col.violations}
